@@ -11,9 +11,9 @@
                                                   transmission start (FChildInit) starts exactly the selected entry, and no time
                                                   passes between selection and start
      strictly_least cls x l1 l2                   entry_ltb x y = true for every other entry y of the store l1 ++ x :: l2 *)
-From Coq Require Import ZArith QArith Qminmax List Bool Permutation.
+From Coq Require Import ZArith QArith Qminmax Qabs List Bool Permutation.
 From ONL Require Import Elem.Packet Elem.StoreQ Elem.HeapList Elem.Heap Elem.HeapProofs Elem.WFQServer Elem.WFQServerProofs
-  Elem.WFQServerTrace Elem.WFQ Elem.WFQProofs Elem.VC Elem.VCProofs Elem.WFQInst.
+  Elem.WFQServerTrace Elem.WFQ Elem.WFQProofs Elem.VC Elem.VCProofs Elem.WFQInst Elem.WFQFair.
 Import ListNotations.
 
 (* every arriving packet of class c -- also the first one of a busy period -- is stamped
@@ -94,6 +94,22 @@ Theorem C14_vc_stamp_order_service : forall (cfg : vcfg), vcfg_ok cfg -> forall 
   vadm cfg acts -> vc_run cfg (vc0 cfg) acts = Some (s', tr) -> sel_ok (VS cfg) (vcls cfg) (vc0 cfg) None tr.
 Proof. exact vc_stamp_order_service. Qed.
 Print Assumptions C14_vc_stamp_order_service.
+
+(* static backlog: if every packet is put before the first transmission starts (static_from false acts: no FPut
+   after an FChildInit), then at every later state s' of the execution, any two classes i, j that still hold a
+   packet (waiting, selected or in transmission) satisfy  | W_i/w_i - W_j/w_j | <= Lmax/w_i + Lmax/w_j,
+   W_c = started_bytes c tr = bytes of class c whose transmission has started, Lmax any bound on the packet sizes *)
+Theorem C14_wfq_static_fairness : forall (cfg : wcfg), wcfg_ok cfg -> wfix_first cfg = true ->
+  forall Lmax : Z, (0 <= Lmax)%Z ->
+  forall acts s' tr i j wi wj,
+    wadm cfg acts -> (forall p, In (FPut p) acts -> (psize p <= Lmax)%Z) -> static_from false acts ->
+    wfq_run cfg (wfq0 cfg) acts = Some (s', tr) ->
+    zlookup i (wweights cfg) = Some wi -> zlookup j (wweights cfg) = Some wj ->
+    holds cfg i s' -> holds cfg j s' ->
+    Qabs (inject_Z (started_bytes cfg i tr) / inject_Z wi - inject_Z (started_bytes cfg j tr) / inject_Z wj)
+      <= inject_Z Lmax / inject_Z wi + inject_Z Lmax / inject_Z wj.
+Proof. exact wfq_static_fairness_thm. Qed.
+Print Assumptions C14_wfq_static_fairness.
 
 (* the order only ever compares keys (stamp, arrival instant, arrival counter): it is a strict weak order, strict and
    total on keys with different counters, so equal stamps cannot make a comparison fail; and the model's "pop the
